@@ -142,6 +142,52 @@ def run_replay(mod, prop, cell, known):
     return res
 
 
+def run_fuzz(prop, cell, seed):
+    """Coverage-guided campaign in a NUMBA_DISABLE_JIT=1 subprocess (vp/fuzz.py)."""
+    import subprocess
+    from .runner import worker_env
+    from .common import REPLAY_DIR
+    t0 = time.time()
+    d = os.path.join(RUN_DIR, prop, "fuzz-%s-%d" % (cell["fuzz"], os.getpid()))
+    os.makedirs(d, exist_ok=True)
+    out = os.path.join(d, "out")
+    for ext in (".stats.json", ".replay.json"):
+        if os.path.exists(out + ext):
+            os.unlink(out + ext)
+    sd = cell_seed(seed, prop, cell["name"]) % (2 ** 31 - 2) + 1      # never 0 (0 = random)
+    env = worker_env("nojit")
+    cmd = [sys.executable, "-m", "vp.fuzz", cell["fuzz"], out, "-runs=%d" % cell["runs"],
+           "-seed=%d" % sd, "-max_len=512", "-len_control=0", "-artifact_prefix=" + d + "/"]
+    r = subprocess.run(cmd, cwd=os.path.dirname(os.path.dirname(os.path.abspath(__file__))),
+                       env=env, stdout=subprocess.PIPE, stderr=subprocess.STDOUT, text=True)
+    stats = {"executed": 0, "nontrivial": 0, "samples": []}
+    if os.path.exists(out + ".stats.json"):
+        stats = json.load(open(out + ".stats.json"))
+    violations = []
+    harness_error = None
+    if os.path.exists(out + ".replay.json"):
+        body = json.load(open(out + ".replay.json"))
+        os.makedirs(REPLAY_DIR, exist_ok=True)
+        path = write_replay(prop, body["cell"], body["case"], body["failure"])
+        violations.append({"bucket": body["failure"]["bucket"], "msg": body["failure"].get("msg", ""),
+                           "replay": path})
+    elif r.returncode != 0:
+        harness_error = "fuzz target exited %d: %s" % (r.returncode, r.stdout[-1500:])
+    cov = None
+    for line in r.stdout.splitlines():
+        if "DONE" in line and "cov:" in line:
+            cov = line.strip()
+    n = int(stats.get("executed", 0))
+    if n == 0 and not violations and harness_error is None:
+        n = cell["runs"]
+    return {"cell": cell["name"], "evaluations": n,
+            "nontrivial": ["fz-%s-%d" % (cell["fuzz"], i) for i in range(int(stats.get("nontrivial", 0)))],
+            "labels": {"fuzz:" + cell["fuzz"]: n}, "samples": stats.get("samples", [])[:2],
+            "undecided": 0, "failing_cases": len(violations), "muted": 0, "known": {},
+            "known_samples": {}, "extra": {}, "violations": violations,
+            "harness_error": harness_error, "wall_s": time.time() - t0, "libfuzzer": cov}
+
+
 def main():
     prop, tier, seed = sys.argv[1], sys.argv[2], int(sys.argv[3])
     mod = importlib.import_module("vp.props.%s" % prop.lower())
@@ -156,7 +202,9 @@ def main():
             continue
         cell = json.loads(line)
         try:
-            if cell.get("replay"):
+            if cell.get("fuzz"):
+                res = run_fuzz(prop, cell, seed)
+            elif cell.get("replay"):
                 res = run_replay(mod, prop, cell, known)
             elif cell.get("direct"):
                 res = mod.run_direct(cell, seed, tier, known)
